@@ -96,12 +96,12 @@ CHECKS = {
    technique="runtime invariant monitor over returned AST spans and error positions",
    design_ref="DESIGN.md section 3 C15"),
  "C05": dict(
-   text="Crash/resource monitors around every public entry point run in crash-isolated worker processes (8 MiB stack, debug assertions + overflow checks): panic hook + catch_unwind, death by signal attributed to the journaled call (stack overflow call site recovered by re-running the case under gdb), CPU-time watchdog, thread-CPU-time scaling ladders up to the property's bound (64 KiB, depth 64) with a local-degree growth rule, hostile templates (cyclic / ill-typed schemas x documents), mutated fixtures, token soup, hostile CBOR heads and numeric extremes. Exploration: held on the executions listed in the evidence; sampled, not exhaustive.",
+   text="Crash/resource monitors around every public entry point run in crash-isolated worker processes (8 MiB stack, debug assertions + overflow checks): panic hook + catch_unwind, death by signal attributed to the journaled call (stack overflow call site recovered by re-running the case under gdb), CPU-time watchdog, thread-CPU-time scaling ladders up to the property's bound (64 KiB, depth 64) with a local-degree growth rule, hostile templates (cyclic / ill-typed schemas x documents), mutated fixtures, token soup, hostile CBOR heads in every head position, extreme numbers inside schemas (occurrence bounds on zero-width entries, sizes, ranges, regexp counts) and numeric extremes. Thorough tier adds an AddressSanitizer phase: the harness is rebuilt with -Zsanitizer=address and the first 6000 cases are re-run by that binary under the same monitors (a sanitizer report is attributed to the journaled call). Exploration: held on the executions listed in the evidence; sampled, not exhaustive.",
    note="CPU time from /proc and CLOCK_THREAD_CPUTIME_ID, never wall clock (a wall-clock watchdog only yields inconclusive). Super-polynomial = local degree > 6 between consecutive ladder sizes, confirmed by re-measurement. Known findings (alias-cycle stack overflows by call site, generic self-instantiation, exponential parse on unclosed brackets) are listed in known_findings.json; 8 defects were repaired by fix: commits.",
    technique="runtime crash/resource monitors (panic hook, signal attribution via journal + gdb call-site recovery, CPU watchdog, scaling ladders) over hostile generated workloads in isolated worker processes",
    design_ref="DESIGN.md section 3 C05"),
  "C11": dict(
-   text="Differential monitoring of decode_cbor against an independent RFC 8949 decoder: exhaustive over all byte strings of length 0..2, structured 3..10-byte scope, generated items in varied encodings with every prefix and byte-level mutants. Exploration: held on the inputs executed, exhaustive only for the enumerated scope.",
+   text="Differential monitoring of decode_cbor against an independent RFC 8949 decoder: exhaustive over all byte strings of length 0..2, structured 3..10-byte scope, generated items in varied encodings with every prefix and byte-level mutants. Thorough tier adds an AddressSanitizer phase (first 20000 cases re-run by an ASan build of the harness) and a Miri phase (8 interpreter processes x 10 cases spread over the case space, Undefined Behavior = violation). Exploration: held on the inputs executed, exhaustive only for the enumerated scope.",
    note="Trusts the hand-transcribed RFC 8949 rules in vh/src/dv.rs (model_decode); NaN payloads not compared; split-UTF-8 chunks undecided. Known finding C11-undefined-as-null is listed in known_findings.json.",
    technique="reference-model runtime monitor (differential oracle) over exhaustive small scope + generated/mutated inputs, crash-isolated worker processes",
    design_ref="DESIGN.md section 3 C11"),
